@@ -609,7 +609,11 @@ func c41CheckNeg(tb ev.TB, rec *ev.Rec, s *c41Srv, c *c41Cli, dataLen int) {
 			rec.Class("neg/alpn-none")
 		}
 		if !res.c2sOK || !res.s2cOK {
-			rec.Fail(tb, "data-not-intact", w, "application data did not flow intact: %s", res.dataNote)
+			dir := "server-to-client"
+			if !res.c2sOK {
+				dir = "client-to-server"
+			}
+			rec.Fail(tb, "data-not-intact/"+dir, w, "application data did not flow intact (%s, suite %04x, %s): %s", dir, suite, versName(v), res.dataNote)
 			return
 		}
 		if round == 1 {
